@@ -197,6 +197,7 @@ def run(tier: str) -> int:
             samples.append({"nodes": nodes, "detail": detail, "outcome": pv["outcome"], "records": [r.get("record_type") for r in t1["records"]]})
     exotic_payloads(rep, stats)
     exotic_parameters(rep, stats)
+    failing_nodes(rep, stats)
     rep.coverage.update({
         "evaluations": stats["observational_runs"] + stats["repro_fresh"] + stats["repro_same_object"] + stats["repro_after_history"],
         "distinct_nontrivial": stats["pipelines"],
@@ -266,8 +267,9 @@ def exotic_payloads(rep, stats):
 EXOTIC_VALUES = {
     "nan": float("nan"), "inf": float("inf"), "-inf": float("-inf"), "lone-surrogate": "r\udce9sultat", "astral": "\U0001d6fc-\U0001f600",
     "huge-int": 10 ** 30, "bytes": b"ab\xff", "tuple": (1, 2), "set": {1}, "complex": 1 + 2j, "long-string": "x" * 5000,
-    "control-chars": "a\x00b\x1fc\n", "nested-nan": {"k": [float("nan")]},
+    "control-chars": "a\x00b\x1fc\n", "nested-nan": {"k": [float("nan")]}, "empty-string": "", "multi-line": "first line\nsecond line\n",
 }
+FAILING_NODES = ["TFail", "TFailEmpty", "TFailKeyObj", "TFailKw", "TFailKI"]
 
 
 def exotic_parameters(rep, stats):
@@ -286,12 +288,14 @@ def exotic_parameters(rep, stats):
             return repr(x)
     for kind, val in EXOTIC_VALUES.items():
         for where in ("node-config", "context", "error-message"):
+            if where == "error-message" and not isinstance(val, str):
+                continue
             def build():
                 if where == "node-config":
                     return [{"processor": "TSource", "parameters": {"v": val}}, {"processor": "TOp0"}], {}
                 if where == "context":
                     return [{"processor": "TSourceDef"}, {"processor": "TOp1"}], {"a": val}
-                return [{"processor": "TSourceDef"}, {"processor": "TOp1", "parameters": {"a": 1}}, {"processor": "TMerge"}], {"note": val}
+                return [{"processor": "TSourceDef"}, {"processor": "TFailMsg", "parameters": {"msg": val}}, {"processor": "TOp0"}], {}
 
             def outcome(trace):
                 nodes, ctx = build()
@@ -312,6 +316,28 @@ def exotic_parameters(rep, stats):
                         rep.add_violation(f"tracing-changes-outcome:exotic-value:{kind}:{where}",
                                           f"with a trace driver attached (detail={detail}) a run with a {kind} value in the {where} does not return / raise what the untraced run does",
                                           {"kind": kind, "where": where, "detail": detail, "untraced": plain, "traced": traced, "value": repr(val)[:80]})
+
+
+def failing_nodes(rep, stats):
+    """A node failing with an exception that has no message, a non-JSON argument, a keyword-only constructor, or that is a
+    BaseException: the traced run must raise exactly what the untraced run raises."""
+    pipegen.setup()
+    from semantiva.trace.drivers.jsonl import JsonlTraceDriver
+    for proc in FAILING_NODES:
+        for pos in (1, 2):
+            nodes = [{"processor": "TSourceDef"}, {"processor": "TOp0"}, {"processor": "TOp0"}]
+            nodes.insert(pos, {"processor": proc})
+            plain = pipegen.run_real(nodes, {})
+            pv = (plain["outcome"], type(plain["exc"]).__name__, repr(plain["exc"])[:200], plain["started"])
+            for detail in tracegen.DETAILS:
+                with rt.tempdir() as d:
+                    traced = pipegen.run_real(nodes, {}, trace=JsonlTraceDriver(str(d / "t.jsonl"), detail=detail))
+                tv = (traced["outcome"], type(traced["exc"]).__name__, repr(traced["exc"])[:200], traced["started"])
+                stats["failing_node_runs"] = stats.get("failing_node_runs", 0) + 1
+                if tv != pv:
+                    rep.add_violation(f"tracing-changes-exception:{proc}",
+                                      f"with a trace driver attached (detail={detail}) a run failing in {proc} raises something else than the untraced run",
+                                      {"nodes": nodes, "detail": detail, "untraced": pv, "traced": tv})
 
 
 def compare_traces(rep, pub, ra, rb, how, detail, has_sweep, already_normalised_b=False):
